@@ -285,8 +285,7 @@ theorem Inv2.pop {p : Program} {s : RS} (h : Inv2 p s) (c : Cl) (rest : List Cl)
 theorem runCore_inv2 (p : Program) (ff0 : Bool) (hwf : wf p = true) : Inv2 p (runCore p ff0).1 := by
   apply runCore_induct p ff0 hwf (Inv2 p)
   · refine ⟨?_, fun k => rfl, by simp [initRS, pendingRan]⟩
-    simp only [wf, Bool.and_eq_true] at hwf
-    exact (idsNodup_iff _).mp hwf.2
+    exact wf_attrs p hwf
   · intro st s _ h _; exact h.stage st _
   · intro s c rest _ h hs; exact h.pop c rest hs
   · intro s _ h _ _ _
